@@ -58,6 +58,34 @@ class C15Mid(Serializable):
     table: Dict[int, C15Inner] = None
 
 
+class C15Base(Serializable):
+    uid: int = 0
+    label: str = ""
+
+
+class C15Derived(C15Base):
+    """a message class derived from another message class: its own fields, its own annotations"""
+    score: int = 0
+    items: List[int] = None
+    stock: Dict[int, str] = None
+    mode: C15Mode = C15Mode.OFF
+
+
+class C15Derived2(C15Derived):
+    pair: Tuple[int, str] = None
+    names: Set[str] = None
+
+
+class C15BaseB(Serializable):
+    uid: int = 0
+
+
+class C15DerivedB(C15BaseB):
+    """same again, used in the opposite order (child first)"""
+    score: int = 0
+    items: List[int] = None
+
+
 class C15Top(Serializable):
     mid: C15Mid = None
     pair: Tuple[C15Inner, int] = None
@@ -236,6 +264,15 @@ def cases(tier):
                         yield C15Top(mid=mid, pair=pair, names=names), "three-level nesting", (repr(i1), repr(modes), repr(table))
 
 
+def hierarchy_cases():
+    """classes derived from other user classes, used in a fixed order inside ONE process: parent first, then child, then
+    grandchild, then parent again; and a second hierarchy child first"""
+    d = C15Derived(score=-12345, items=[1, 2 ** 40], stock={1: "one", -5: "minus five"}, mode=C15Mode.AUTO)
+    d2 = C15Derived2(pair=(7, "x"), names={"a", "é"})
+    yield [C15Base(uid=11, label="é"), d, d2, C15Base(uid=-1, label=""), C15Derived(), C15Derived2(pair=None, names=set())], "class hierarchy, parent used first", ("hierarchy", "parent-first")
+    yield [C15DerivedB(score=5, items=[3]), C15BaseB(uid=9), C15DerivedB(score=0, items=None)], "class hierarchy, child used first", ("hierarchy", "child-first")
+
+
 def work_init(tier):
     global _TIER
     _TIER = tier
@@ -247,12 +284,18 @@ def work(arg):
     viols = {}
     labels = core.Counter()
     distinct = set()
-    for i, (obj, label, ident) in enumerate(cases(_TIER)):
+    for i, (obj, label, ident) in enumerate(itertools.chain(cases(_TIER), hierarchy_cases())):
         if i % n != k:
             continue
         total += 1
         labels.inc(label.split(" ")[0])
-        bad = check_obj(obj, label)
+        if isinstance(obj, list):
+            bad = []
+            for o in obj:
+                bad += check_obj(o, label + " (%s)" % type(o).__name__)
+                total += 1
+        else:
+            bad = check_obj(obj, label)
         for oracle, sig, msg in bad:
             viols.setdefault((oracle, sig), [0, {"label": label, "ident": ident}, msg])[0] += 1
         if not bad:
@@ -294,7 +337,8 @@ def run(tier, seed):
 
 
 def replay(witness):
-    for obj, label, ident in cases("thorough"):
+    for obj, label, ident in itertools.chain(hierarchy_cases(), cases("thorough")):
         if list(ident) == list(witness.get("ident", [])) and label == witness.get("label"):
-            return [core.Violation(o, s, witness, m) for o, s, m in check_obj(obj, label)]
+            objs = obj if isinstance(obj, list) else [obj]
+            return [core.Violation(o, s, witness, m) for x in objs for o, s, m in check_obj(x, label + (" (%s)" % type(x).__name__ if isinstance(obj, list) else ""))]
     return []
